@@ -1,5 +1,125 @@
+(* C07 — KroneckerFactoredLattice after its constraints gives monotone,
+   bounded outputs.  Property theorems only; proofs live in Proofs/KFL.v, the
+   model in Model/KFL.v.
+
+   Vocabulary (Proofs/KFL.v):
+     root_ok root        tf.pow(x, 1/d) for x >= 1: result >= 1, its d-th power
+                         is >= x (exact root or any upper approximation), 1 at 1
+     cfg_ok c dims       lattice_sizes >= 2, dims >= 1, output_min < output_max
+                         when both are set, len(monotonicities) = dims
+     shaped c dims p     p_scale p : [units][terms], p_kern p : [units][terms][dims][L]
+                         (any units >= 0, terms >= 0)
+     run root c steps p  parameters after the constraint history `steps`, each
+                         step one of: kernel.constraint (StepK), scale.constraint
+                         (StepS), finalize_constraints() (StepF)
+     hasK / hasS steps   the history contains an application of the kernel /
+                         scale constraint (StepF counts as both)
+     coords_le ms xs ys  ys is xs with some monotone coordinates increased
+     in_range L xs       every coordinate in [0, L-1]
+     params_equiv p q    same bias, same scales (==), and same weights (==)
+                         in every (unit, term) whose scale is not 0 *)
 From TFL Require Import Model.KFL Proofs.KFL.
 Open Scope Q_scope.
-Theorem C07_placeholder : qsgn 0 = 0.
-Proof. exact placeholder_sgn. Qed.
-Print Assumptions C07_placeholder.
+
+(* The scale constraint never flips a sign: the sign stays or becomes 0. *)
+Theorem C07_scale_sign_stable : forall omin omax s, bounds_ok omin omax ->
+  qsgn (finalize_scale1 omin omax s) = qsgn s \/ qsgn (finalize_scale1 omin omax s) = 0.
+Proof. exact finalize_scale1_qsgn. Qed.
+Print Assumptions C07_scale_sign_stable.
+
+(* With both bounds the sign is kept exactly. *)
+Theorem C07_scale_sign_kept_two_sided : forall lo hi s, lo < hi ->
+  qsgn (finalize_scale1 (Some lo) (Some hi) s) = qsgn s.
+Proof. exact finalize_scale1_qsgn_two_sided. Qed.
+Print Assumptions C07_scale_sign_kept_two_sided.
+
+(* Monotonicity: for every configuration, all sizes, every rational kernel /
+   scale / bias (every sign pattern, zeros included), every constraint history
+   in which the kernel constraint was applied at least once (in any order with
+   the scale constraint, any repetition), every unit and every pair of points
+   xs <= ys that differ only in monotone coordinates: out(xs) <= out(ys), for
+   in-range points, and for all points when clip_inputs is on. *)
+Theorem C07_monotone : forall root c dims p steps ms u xs ys,
+  root_ok root -> cfg_ok c dims -> shaped c dims p -> hasK steps = true ->
+  canon_monos (c_monos c) = Some ms ->
+  coords_le ms xs ys ->
+  c_clip c = true \/ (in_range (c_size c) xs /\ in_range (c_size c) ys) ->
+  unit_out c (run root c steps p) u xs <= unit_out c (run root c steps p) u ys.
+Proof. intros root c dims p steps ms u xs ys H. exact (kfl_monotone root H c dims p steps ms u xs ys). Qed.
+Print Assumptions C07_monotone.
+
+(* The same for two points differing in one monotone coordinate d. *)
+Theorem C07_monotone_single_coordinate : forall root c dims p steps ms u xs d y,
+  root_ok root -> cfg_ok c dims -> shaped c dims p -> hasK steps = true ->
+  canon_monos (c_monos c) = Some ms -> length xs = dims ->
+  nth d ms false = true -> nth d xs 0 <= y ->
+  c_clip c = true \/ (in_range (c_size c) xs /\ in_range (c_size c) (set_nth d y xs)) ->
+  unit_out c (run root c steps p) u xs <= unit_out c (run root c steps p) u (set_nth d y xs).
+Proof. intros root c dims p steps ms u xs d y H. exact (kfl_monotone_single root H c dims p steps ms u xs d y). Qed.
+Print Assumptions C07_monotone_single_coordinate.
+
+(* Bounds: once both constraints have been applied (any order, any
+   repetition, or finalize_constraints()), with the bias of a bounded layer at
+   its fixed initial value, every unit's output lies within the configured
+   bound(s) at every in-range point, and at every point when clip_inputs is
+   on — with or without monotonicity, for bound modes min / max / both. *)
+Theorem C07_bounded : forall root c dims p steps u xs,
+  root_ok root -> cfg_ok c dims -> shaped c dims p -> hasK steps = true -> hasS steps = true ->
+  (u < length (p_scale p))%nat ->
+  nth u (p_bias p) 0 == bias_init1 (c_min c) (c_max c) ->
+  length xs = dims -> c_clip c = true \/ in_range (c_size c) xs ->
+  (forall lo, c_min c = Some lo -> lo <= unit_out c (run root c steps p) u xs) /\
+  (forall hi, c_max c = Some hi -> unit_out c (run root c steps p) u xs <= hi).
+Proof. intros root c dims p steps u xs H. exact (kfl_bounded root H c dims p steps u xs). Qed.
+Print Assumptions C07_bounded.
+
+(* Idempotence: after a history containing both constraints, any further
+   history leaves the parameters unchanged up to params_equiv ... *)
+Theorem C07_idempotent : forall root c dims p steps more,
+  root_ok root -> cfg_ok c dims -> shaped c dims p -> hasK steps = true -> hasS steps = true ->
+  params_equiv (run root c steps p) (run root c (steps ++ more) p).
+Proof. intros root c dims p steps more H. exact (kfl_idempotent root H c dims p steps more). Qed.
+Print Assumptions C07_idempotent.
+
+(* ... the two orders of applying the constraints give equivalent parameters ... *)
+Theorem C07_order_irrelevant : forall root c dims p,
+  cfg_ok c dims -> shaped c dims p ->
+  params_equiv (run root c [StepK; StepS] p) (run root c [StepS; StepK] p).
+Proof. exact kfl_order_irrelevant. Qed.
+Print Assumptions C07_order_irrelevant.
+
+(* ... and equivalent parameters compute the same function. *)
+Theorem C07_equivalent_parameters_same_output : forall c p q u xs,
+  params_equiv p q -> unit_out c q u xs == unit_out c p u xs.
+Proof. exact equiv_same_output. Qed.
+Print Assumptions C07_equivalent_parameters_same_output.
+
+(* On every term whose scale is non-zero the kernel constraint is idempotent
+   weight by weight. *)
+Theorem C07_kernel_constraint_idempotent_per_term : forall root c dims s vs,
+  root_ok root -> cfg_ok c dims -> tshape (c_size c) dims vs ->
+  s == 0 \/ teq (Kt root c s (Kt root c s vs)) (Kt root c s vs).
+Proof. intros root c dims s vs H. exact (Kt_settled root H c dims s vs). Qed.
+Print Assumptions C07_kernel_constraint_idempotent_per_term.
+
+(* Literal, weight-by-weight idempotence of the PARAMETERS is false: with a
+   one-sided bound the scale constraint can clip a scale to 0, after which a
+   further kernel constraint zeroes that term's weights (direction = sign(0)
+   = 0 is multiplied into every dimension).  The output is unaffected
+   (C07_idempotent + C07_equivalent_parameters_same_output).  Witness:
+   lattice_sizes=2, monotonicities=[1], output_min=0, kernel [1,2], scale -1:
+   K;S gives weights [3/2,3/2] with scale 0, K;S;K gives [0,0]. *)
+Theorem C07_idempotent_params_refuted : exists c p,
+  cfg_ok c 1 /\ shaped c 1 p /\
+  ~ Forall2 (Forall2 teq) (p_kern (run qroot c [StepK; StepS] p))
+                          (p_kern (run qroot c [StepK; StepS; StepK] p)).
+Proof. exact idempotent_params_witness. Qed.
+Print Assumptions C07_idempotent_params_refuted.
+
+(* The hypotheses are jointly satisfiable. *)
+Example C07_hypotheses_satisfiable : exists root c dims p steps ms xs ys,
+  root_ok root /\ cfg_ok c dims /\ shaped c dims p /\ hasK steps = true /\ hasS steps = true /\
+  canon_monos (c_monos c) = Some ms /\ coords_le ms xs ys /\
+  in_range (c_size c) xs /\ in_range (c_size c) ys /\ length xs = dims /\
+  (0 < length (p_scale p))%nat /\ nth 0 (p_bias p) 0 == bias_init1 (c_min c) (c_max c).
+Proof. exact hypotheses_witness. Qed.
